@@ -76,7 +76,8 @@ def main():
         finally:
             shutil.rmtree(tmp, ignore_errors=True)
         expect = []
-        for cs in meta["caught_sites"][:1]:
+        own = [c for c in meta["caught_sites"] if c.startswith(meta["property"] + ".")]
+        for cs in (own or meta["caught_sites"])[:1]:
             m = re.match(r"(C\d\d)\.(\S+) (.*)", cs)
             prop, rule, site = m.group(1), m.group(2), m.group(3)
             expect.append({"rule": rule, "site": site})
